@@ -280,7 +280,8 @@ def run(ck: Checker) -> None:
         "__setattr__ overrides; every frozen-bypass write (object.__setattr__, setattr, __dict__) and every plain "
         "attribute store is classified by receiver (object under construction, class object, non-node object, audited fresh "
         "local) and a write whose receiver is an existing node is a violation; in-place container mutation never goes "
-        "through a node attribute; generated accessors contain no store (C12's template analysis)."
+        "through a node attribute; generated accessors contain no store (C12's template analysis); the registry entry of an existing node is "
+        "removed only by the identity-guarded unregister helper and never overwritten (ownership, identity guard, key freshness, deserialization typestate: shared with C03/C04)."
     )
     ck.rule_text = "one obligation per write / mutation site; distinct = distinct (rule, site)"
     ck.assumptions += ["dataclasses: frozen=True makes __setattr__/__delattr__ raise",
@@ -291,6 +292,13 @@ def run(ck: Checker) -> None:
     ck.guard("R-INPLACE", lambda: r_inplace(ck, ncls))
     from . import templates_rules
     ck.guard("R-GEN-PURE", lambda: templates_rules.r_gen_pure(ck))
+    # registry membership of an existing node changes only as specified for detach / replace
+    from .c03 import r_reg_fresh, r_reg_ident, r_reg_own
+    from .c04 import r_deser_id
+    ck.guard("R-REG-OWN", lambda: r_reg_own(ck))
+    ck.guard("R-REG-IDENT", lambda: r_reg_ident(ck))
+    ck.guard("R-REG-FRESH", lambda: r_reg_fresh(ck))
+    ck.guard("R-DESER-ID", lambda: r_deser_id(ck))
     if ck.tier == "thorough":
         ck.explanation += (" Thorough tier: mypy (the repository's own dev dependency, used as a library) infers the type of every write receiver "
                            "as a cross-check of the classification, and a compile-fail witness (a program assigning to node fields must be rejected "
